@@ -27,7 +27,10 @@ Definition verdict_thm (v : verdict) : string :=
 Definition verdict_note (v : verdict) : string :=
   match v with VDet _ _ _ => "" | VDetIf _ h _ _ => h | VOffPath _ w _ _ => w | VRefuted _ f _ _ => f end.
 
-Record alt := mkAlt { a_class : rclass; a_operand : string; a_targets : list string; a_verdicts : list verdict }.
+(* [a_sorts]: the sort calls the translator must find after the loop, verbatim, comparator included.
+   The theorems named for a sorted site are about sorting by the key itself (bytewise [<] on the map
+   key, a strict total order on distinct keys); any other comparator makes the site 'changed'. *)
+Record alt := mkAlt { a_class : rclass; a_operand : string; a_targets : list string; a_sorts : list string; a_verdicts : list verdict }.
 Record entry := mkEntry { e_func : string; e_index : nat; e_alts : list alt }.
 
 Definition det {P : Prop} (t : string) (pf : P) := VDet t P pf.
@@ -52,63 +55,64 @@ Definition v_files_and_map :=
 
 Definition table : list entry := [
   mkEntry "filterMasterAnnotations" 0
-    [mkAlt CAppendUnsorted "annotations" ["annotations"; "removedAnnotations"] v_filter];
+    [mkAlt CAppendUnsorted "annotations" ["annotations"; "removedAnnotations"] [] v_filter];
   mkEntry "filterMinionAnnotations" 0
-    [mkAlt CAppendUnsorted "annotations" ["annotations"; "removedAnnotations"] v_filter];
+    [mkAlt CAppendUnsorted "annotations" ["annotations"; "removedAnnotations"] [] v_filter];
   mkEntry "mergeMasterAnnotationsIntoMinion" 0
-    [mkAlt CMapWrite "masterAnnotations" ["minionAnnotations"]
+    [mkAlt CMapWrite "masterAnnotations" ["minionAnnotations"] []
        [det "site_mergeMasterAnnotationsIntoMinion_deterministic" site_mergeMasterAnnotationsIntoMinion_deterministic]];
   mkEntry "Configurator.virtualServerForHost" 0
-    [mkAlt COther "cnf.virtualServers" []
+    [mkAlt COther "cnf.virtualServers" [] []
        [detif "site_firstmatch_deterministic" "at most one VirtualServer per host (C01)" (@site_firstmatch_deterministic);
         offpath "site_firstmatch_two_matches_refuted" hc_only (@site_firstmatch_two_matches_refuted)]];
   mkEntry "Configurator.transportServerForActionName" 0
-    [mkAlt COther "cnf.transportServers" []
+    [mkAlt COther "cnf.transportServers" [] []
        [offpath "site_firstmatch_two_matches_refuted" hc_only (@site_firstmatch_two_matches_refuted)]];
   mkEntry "Configurator.addOrUpdateVirtualServer" 0
-    [mkAlt COther "virtualServerEx.DosProtectedEx" ["dosResources"] v_files_and_map];
+    [mkAlt COther "virtualServerEx.DosProtectedEx" ["dosResources"] [] v_files_and_map];
   mkEntry "generateTLSPassthroughHostsConfig" 0
-    [mkAlt CMapWrite "tlsPassthroughPairs" ["cfg"]
+    [mkAlt CMapWrite "tlsPassthroughPairs" ["cfg"] []
        [detif "site_mapwrite_deterministic" "no two TLS-passthrough TransportServers share a host (C02)" (@site_mapwrite_deterministic)]];
   mkEntry "Configurator.GetIngressCounts" 0
-    [mkAlt COther "cnf.ingresses" [] [det "site_GetIngressCounts_deterministic" (@site_GetIngressCounts_deterministic)]];
+    [mkAlt COther "cnf.ingresses" [] [] [det "site_GetIngressCounts_deterministic" (@site_GetIngressCounts_deterministic)]];
   mkEntry "Configurator.GetIngressCounts" 1
-    [mkAlt COther "cnf.minions" [] [det "site_count_deterministic" (@site_count_deterministic)]];
+    [mkAlt COther "cnf.minions" [] [] [det "site_count_deterministic" (@site_count_deterministic)]];
   mkEntry "Configurator.GetIngressAnnotations" 0
-    [mkAlt CAppendUnsorted "annotationSet" ["annotations"]
+    [mkAlt CAppendUnsorted "annotationSet" ["annotations"] []
        [offpath "site_GetIngressAnnotations_refuted" telemetry_only site_GetIngressAnnotations_refuted]];
-  mkEntry "Configurator.getStandardIngressAnnotations" 0 [mkAlt CMapWrite "cnf.ingresses" ["annotationSet"] v_annset_outer];
-  mkEntry "Configurator.getStandardIngressAnnotations" 1 [mkAlt CMapWrite "ing.Ingress.Annotations" ["annotationSet"] v_annset_inner];
-  mkEntry "Configurator.getMinionIngressAnnotations" 0 [mkAlt CMapWrite "cnf.mergeableIngresses" ["annotationSet"] v_annset_outer];
-  mkEntry "Configurator.getMinionIngressAnnotations" 1 [mkAlt CMapWrite "minionIng.Ingress.Annotations" ["annotationSet"] v_annset_inner];
+  mkEntry "Configurator.getStandardIngressAnnotations" 0 [mkAlt CMapWrite "cnf.ingresses" ["annotationSet"] [] v_annset_outer];
+  mkEntry "Configurator.getStandardIngressAnnotations" 1 [mkAlt CMapWrite "ing.Ingress.Annotations" ["annotationSet"] [] v_annset_inner];
+  mkEntry "Configurator.getMinionIngressAnnotations" 0 [mkAlt CMapWrite "cnf.mergeableIngresses" ["annotationSet"] [] v_annset_outer];
+  mkEntry "Configurator.getMinionIngressAnnotations" 1 [mkAlt CMapWrite "minionIng.Ingress.Annotations" ["annotationSet"] [] v_annset_inner];
   mkEntry "Configurator.GetVirtualServerCounts" 0
-    [mkAlt COther "cnf.virtualServers" [] [det "site_count_deterministic" (@site_count_deterministic)]];
-  mkEntry "Configurator.updateApResourcesForVs" 0 [mkAlt COther "vsEx.ApPolRefs" ["resources.Policies"] v_files_and_map];
-  mkEntry "Configurator.updateApResourcesForVs" 1 [mkAlt COther "vsEx.LogConfRefs" ["resources.LogConfs"] v_files_and_map];
+    [mkAlt COther "cnf.virtualServers" [] [] [det "site_count_deterministic" (@site_count_deterministic)]];
+  mkEntry "Configurator.updateApResourcesForVs" 0 [mkAlt COther "vsEx.ApPolRefs" ["resources.Policies"] [] v_files_and_map];
+  mkEntry "Configurator.updateApResourcesForVs" 1 [mkAlt COther "vsEx.LogConfRefs" ["resources.LogConfs"] [] v_files_and_map];
   mkEntry "upstreamMapToSlice" 0
-    [mkAlt CAppendSorted "upstreams" ["keys"] [det "site_upstreamMapToSlice_deterministic" (@site_upstreamMapToSlice_deterministic)]];
+    [mkAlt CAppendSorted "upstreams" ["keys"] ["sort.Strings(keys)"] [det "site_upstreamMapToSlice_deterministic" (@site_upstreamMapToSlice_deterministic)]];
   mkEntry "generateNginxCfgForMergeableIngresses" 0
-    [mkAlt CMapWrite "server.HealthChecks" ["healthChecks"] [det "site_mapwrite_samekey_deterministic" (@site_mapwrite_samekey_deterministic)]];
+    [mkAlt CMapWrite "server.HealthChecks" ["healthChecks"] [] [det "site_mapwrite_samekey_deterministic" (@site_mapwrite_samekey_deterministic)]];
   (* F13: as the tree stands the maps are appended in range order; with fixes/F13.diff the keys
      are collected and sorted first *)
   mkEntry "virtualServerConfigurator.GenerateVirtualServerConfig" 0
-    [mkAlt CAppendUnsorted "policiesCfg.APIKey.ClientMap" ["maps"]
+    [mkAlt CAppendUnsorted "policiesCfg.APIKey.ClientMap" ["maps"] []
        [refuted "site_GenerateVirtualServerConfig_refuted" "F13" (@site_GenerateVirtualServerConfig_refuted)];
-     mkAlt CAppendSorted "policiesCfg.APIKey.ClientMap" ["apiKeyMapNames"]
+     mkAlt CAppendSorted "policiesCfg.APIKey.ClientMap" ["apiKeyMapNames"] ["sort.Strings(apiKeyMapNames)"]
        [det "site_GenerateVirtualServerConfig_fixed_deterministic" (@site_GenerateVirtualServerConfig_fixed_deterministic)]];
   mkEntry "generateAPIKeyClients" 0
-    [mkAlt CAppendUnsorted "secretData" ["clients"]
+    [mkAlt CAppendUnsorted "secretData" ["clients"] []
        [refuted "site_generateAPIKeyClients_refuted" "F13" site_generateAPIKeyClients_refuted];
      mkAlt CAppendSorted "secretData" ["clients"]
+       ["sort.Slice(clients, func(i, j int) bool { return clients[i].ClientID < clients[j].ClientID })"]
        [det "site_generateAPIKeyClients_fixed_deterministic" site_generateAPIKeyClients_fixed_deterministic]];
   (* F14 *)
   mkEntry "virtualServerConfigurator.generatePolicies" 0
-    [mkAlt COther "generateLRZGroupMaps(config.RateLimit.Zones)" ["config.RateLimit.GroupMaps"]
+    [mkAlt COther "generateLRZGroupMaps(config.RateLimit.Zones)" ["config.RateLimit.GroupMaps"] []
        [refuted "site_generatePolicies_refuted" "F14" (@site_generatePolicies_refuted)];
-     mkAlt CAppendSorted "groupMaps" ["groupVariables"]
+     mkAlt CAppendSorted "groupMaps" ["groupVariables"] ["sort.Strings(groupVariables)"]
        [det "site_generatePolicies_fixed_deterministic" (@site_generatePolicies_fixed_deterministic)]];
   mkEntry "Warnings.Add" 0
-    [mkAlt CMapWrite "warnings" ["w"] [det "site_mapwrite_samekey_deterministic" (@site_mapwrite_samekey_deterministic)]]
+    [mkAlt CMapWrite "warnings" ["w"] [] [det "site_mapwrite_samekey_deterministic" (@site_mapwrite_samekey_deterministic)]]
 ].
 
 (* the sources of nondeterminism other than map ranges that are allowed in the three packages:
@@ -128,7 +132,8 @@ Definition find_entry (f : string) (i : nat) : option entry :=
   find (fun e => String.eqb (e_func e) f && Nat.eqb (e_index e) i) table.
 
 Definition alt_matches (s : site) (a : alt) : bool :=
-  rclass_eqb (a_class a) (s_class s) && String.eqb (a_operand a) (s_operand s) && strs_eqb (a_targets a) (s_targets s).
+  rclass_eqb (a_class a) (s_class s) && String.eqb (a_operand a) (s_operand s) && strs_eqb (a_targets a) (s_targets s) &&
+  strs_eqb (a_sorts a) (s_sorts s).
 
 (* status codes: 0 deterministic, 1 deterministic under a named hypothesis, 2 order-sensitive but
    off the generation path, 3 order-sensitive and a recorded finding, 8 the site is in the table
